@@ -47,6 +47,7 @@ type input struct {
 	labels []string
 	calls  int
 	wrote  string // non-empty: a variant after which the input bytes had changed
+	desc   string // crafted inputs: how the bytes were derived
 }
 
 func lenClass(n int) string {
@@ -263,6 +264,16 @@ func main() {
 		add(n, "random", false)
 	}
 
+	// inputs crafted relative to the default secret (secretrel.go)
+	craftedIn, secretSrc := secretRelativeInputs(o.Seed, thorough)
+	nCraftedCoq := 0
+	for _, c := range craftedIn {
+		inputs = append(inputs, &input{n: len(c.data), pattern: "secret-rel", data: c.data, coq: c.coq, desc: c.desc})
+		if c.coq {
+			nCraftedCoq++
+		}
+	}
+
 	// ---------------- run the real code ----------------
 	for _, in := range inputs {
 		c := append([]byte(nil), in.data...)
@@ -406,7 +417,10 @@ func main() {
 			steps := append([]string{"Spec vs internal/xxh3_raw (the Spec is suspect)"}, in.labels...)
 			replay := map[string]interface{}{"len": in.n, "pattern": in.pattern, "data_seed": o.Seed,
 				"variants": in.labels, "observed": fmt.Sprint(in.obs), "xxh3_raw": fmt.Sprint(in.raw)}
-			if in.n <= 64 || (in.n <= 20000 && !(len(in.obs) == 1 && in.obs[0] == in.raw)) {
+			if in.desc != "" {
+				replay["crafted"] = in.desc
+			}
+			if in.n <= 64 || in.desc != "" || (in.n <= 20000 && !(len(in.obs) == 1 && in.obs[0] == in.raw)) {
 				replay["data_hex"] = hex.EncodeToString(in.data) // always for an input on which anything disagrees
 			}
 			w.Case(term, fmt.Sprintf("len-class %s/%s", lenClass(in.n), in.pattern), in.n >= 1, steps, replay)
@@ -435,6 +449,9 @@ func main() {
 	w.Notes["inputs_with_any_disagreement"] = len(bad)
 	w.Notes["disagreeing_inputs_added_to_coq"] = extra
 	w.Notes["guard_page_hash_calls"] = gres.Calls
+	w.Notes["secret_relative_inputs"] = len(craftedIn)
+	w.Notes["secret_relative_inputs_through_coq"] = nCraftedCoq
+	w.Notes["secret_relative_pairing_source"] = secretSrc
 	w.Notes["guard_page_child"] = gres.Status
 	w.Notes["huge_input_child(>2GiB)"] = hres.Status
 	w.Notes["huge_input_lengths"] = fmt.Sprint(hugeLengths(thorough))
